@@ -111,6 +111,19 @@ def creation_and_conversion(L, db, c, qt, u, fu, x=1.5):
         M("reciprocal Scalar.GetValue([(v,1)])", lambda: (1.0 / Scalar(c, x, u)).GetValue([(w, 1)]), case)
         M("reciprocal Array.GetValues(plain unit)", lambda: (1.0 / Array(c, [x, x], u)).GetValues(w), case)
         M("squared Scalar.GetValue([(v,-2)])", lambda: (Scalar(c, x, u) * Scalar(c, x, u)).GetValue([(w, -2)]), case)
+    # a conversion *named after* another quantity type than the one both units belong to, for every kind of value the database
+    # converts (the registered converters for ndarrays and FractionValues included)
+    oqt = db.GetQuantityType(fu)
+    w = next((t for t in db.GetUnits(qt) if t != u), u)
+    if oqt and oqt != qt and oqt != "Unknown" and w != u:  # (u -> u is answered before anything is looked at, by design)
+        from barril.basic.fraction import FractionValue as _FV
+
+        for vname, val in (("float", x), ("list", [x, 1.0]), ("tuple", (x,)), ("ndarray", np.array([x, 1.0])), ("FractionValue", _FV(3, (1, 4))), ("int", 3)):
+            M("UnitDatabase.Convert(another type's name, u, v, %s)" % vname, lambda: db.Convert(oqt, u, w, val), case)
+    # an Array that holds no value still has a dimension
+    for ename, empty in (("list", []), ("tuple", ()), ("ndarray", np.array([]))):
+        M("empty Array[%s].GetValues(foreign)" % ename, lambda: Array(c, empty, u).GetValues(fu), case)
+        M("empty Array[%s].CreateCopy(unit=foreign)" % ename, lambda: Array(c, empty, u).CreateCopy(unit=fu), case)
     M("Array.GetValues(foreign)", lambda: a.GetValues(fu), case, (a,))
     M("Array[nd].GetValues(foreign)", lambda: an.GetValues(fu), case, (an,))
     M("Array.CreateCopy(unit=foreign)", lambda: a.CreateCopy(unit=fu), case, (a,))
